@@ -356,8 +356,15 @@ func (e *Engine) registerStdlib() {
 
 	// ---- time
 	r("time.Now", func(c *CallCtx) []Outcome {
-		unm("time.Now called directly (harness must provide Clock.NowFn)")
+		if v, ok := c.st.ghost["time.Now"]; ok {
+			return c.ret(v)
+		}
+		unm("time.Now called directly (the harness must provide Clock.NowFn or vn.SetNow)")
 		return nil
+	})
+	r(vnPkg+".SetNow", func(c *CallCtx) []Outcome {
+		c.st.ghost["time.Now"] = c.args[0]
+		return c.ret(nil)
 	})
 	tv := func(v Value) *Term { return v.(TimeV).ns }
 	r("(time.Time).Add", func(c *CallCtx) []Outcome { return c.ret(TimeV{Add(tv(c.args[0]), c.args[1].(*Term))}) })
